@@ -39,8 +39,8 @@ Definition set_fin (r : region) (b : bool) : region :=
 (* CaptureRegion.complete (property) *)
 Definition base_complete (r : region) : bool :=
   match r_min r with
-  | Some m => m <=? blen (r_data r)
-  | None => r_len r =? blen (r_data r)
+  | Some m => m <=? flen (r_data r)
+  | None => r_len r =? flen (r_data r)
   end.
 (* region.complete with dynamic dispatch: EndCaptureRegion.complete = super().complete and self._complete *)
 Definition rcomplete (r : region) : bool :=
@@ -48,8 +48,8 @@ Definition rcomplete (r : region) : bool :=
 
 (* CaptureRegion.capture(chunk, current_position) *)
 Definition cap_fixed (r : region) (chunk : bytes) (pos : N) : region :=
-  let read_start := pos - blen chunk in
-  let wanted := r_off r + blen (r_data r) in
+  let read_start := pos - flen chunk in
+  let wanted := r_off r + flen (r_data r) in
   if (read_start <=? wanted) && (wanted <=? pos)
   then set_data r (ntake (r_len r) (r_data r ++ nskip (wanted - read_start) chunk))
   else r.
@@ -57,7 +57,7 @@ Definition cap_fixed (r : region) (chunk : bytes) (pos : N) : region :=
 (* EndCaptureRegion.capture(chunk, current_position) *)
 Definition cap_end (r : region) (chunk : bytes) (pos : N) : region :=
   let d := nlast (r_len r) (r_data r ++ chunk) in
-  set_off (set_data r d) (pos - blen d).
+  set_off (set_data r d) (pos - flen d).
 
 Definition rcapture (r : region) (chunk : bytes) (pos : N) : region :=
   if r_end r then cap_end r chunk pos else cap_fixed r chunk pos.
@@ -211,7 +211,7 @@ Fixpoint run_callbacks (F : fmt) (names : list rname) (s : ist) : ist * option e
 Definition eat_chunk (F : fmt) (s : ist) (chunk : bytes) : ist * option exn :=
   let pre_regions := ids (i_regs s) in
   let pre_complete := complete_ids (i_regs s) in
-  let s0 := set_pos s (i_pos s + blen chunk) in
+  let s0 := set_pos s (i_pos s + flen chunk) in
   match do_capture [] chunk s0 with
   | (s1, Some e) => (s1, Some e)
   | (s1, None) =>
@@ -235,7 +235,7 @@ Definition complete (s : ist) : bool := forallb (fun p => rcomplete (snd p)) (i_
 
 (* context_info, with each region's current offset (dict order) *)
 Definition context_info (s : ist) : list (rname * N) :=
-  map (fun p => (fst p, blen (r_data (snd p)))) (i_regs s).
+  map (fun p => (fst p, flen (r_data (snd p)))) (i_regs s).
 
 Definition is_exn {A} (r : res A) : bool := match r with Ok _ => false | Exn _ => true end.
 
